@@ -463,13 +463,13 @@ impl State {
                 &self.config.file_spec,
                 &naming_state.infix_filter(),
                 rotate_config.naming.writes_direct(),
+                &path,
             )?;
             if cleanup_in_background_thread {
                 Some(list_and_cleanup::start_cleanup_thread(
                     rotate_config.cleanup,
                     self.config.file_spec.clone(),
                     &naming_state.infix_filter(),
-                    rotate_config.naming.writes_direct(),
                 )?)
             } else {
                 None
@@ -569,6 +569,7 @@ impl State {
                     &self.config.file_spec,
                     &rotation_state.naming_state.infix_filter(),
                     rotation_state.naming_state.writes_direct(),
+                    current_path,
                 )?;
             }
         }
